@@ -1397,6 +1397,14 @@ FUNCTIONS += [
         ret_rules=[(r'^TRACE_RETURN\(agent, func, params\)$', 'acts ++ [Act.stmt "return trace_return<Ret>(agent, func, params)"]')],
     ),
     dict(
+        name='throw_handler_call', cxx='throw_handler_t<H, signature>::operator()', file=MOCK, module='ThrowHandlerCall',
+        header=r'struct throw_handler_t\b.*?\n\s*R operator\(\)\(T& p\)',
+        lean_sig=': List Act', acts=True, try_catch=True, prologue=['let mut acts : List Act := []'], epilogue='return acts', void_result='acts',
+        noreturn=[r'^abort\('],
+        pre=[(r'default_return<R>\(\)', 'DEFAULT_RETURN()')],
+        ret_rules=[(r'^DEFAULT_RETURN\(\)$', 'acts ++ [Act.stmt "return default_return<R>()"]')],
+    ),
+    dict(
         name='trace_return_void', cxx='trompeloeil::trace_return<void>(agent, func, params)', file=MOCK, module='TraceReturnVoid',
         header=r'\n\s*trace_return\(\s*trace_agent const&,\s*F& func,\s*P& params\)',
         lean_sig=': List Act', acts=True, prologue=['let mut acts : List Act := []'], epilogue='return acts', void_result='acts',
